@@ -23,6 +23,7 @@ synchronized tells tuple-valued entries by type, not by exception (repair
 Round 6: no function of mystic.constraints / the decorators of mystic.tools
 defaults an argument on its truth value; unique draws replacements from a set;
 connected keeps absorbed keys.
+Review of the repairs: the caller's dtype is kept only if _holds(dtype, values) - the round trip - says it stores the values to be written (C16.o); impose_as ends on a cycle of pairs; suppress casts only when the spread has a fraction.
 NOT decided: landing in the target set on concrete vectors, idempotence, the
 numerics of impose_bounds / unique.
 """
@@ -227,8 +228,9 @@ def input_rewriting(ctx):
     x = asarray(list(x))
     mask = abs(x) < tol
     if not clip:
-        if mask.any() and x.dtype.kind in 'iub': x = x.astype(float)
-        x[mask==False] = (x + sum(x[mask])/(len(mask)-sum(mask)))[mask==False]
+        spread = sum(x[mask])/(len(mask)-sum(mask))
+        if x.dtype.kind in 'iub' and not mask.all() and spread % 1: x = x.astype(float)
+        x[mask==False] = (x + spread)[mask==False]
     x[mask] = 0.0
     return x.tolist()
 ''', 'suppress', 'entries with |x| < tol are zeroed (their sum spread over the others when not clipping)')
@@ -602,3 +604,101 @@ def settings_objects_are_not_consumed(ctx):
                       '%s removes entries from an object it was given (%s): the caller\'s settings are consumed by the first call, and a second call with the same object behaves differently'
                       % (fi.qualname, norm_stmt(bad)[:60] if isinstance(bad, ast.stmt) else (unparse(bad)[:60] if bad is not None else '')), fi, enclosing_stmt(bad) if bad is not None and not isinstance(bad, ast.stmt) else (bad or fi.node))
     ctx.need(n >= 40, 'expected >= 40 functions in mystic.constraints / mystic.tools, found %d' % n)
+
+
+def _bool_eval(node, env):
+    """truth value of a test under an assignment of its atoms (atoms = maximal sub-expressions that are not and / or / not), keyed by their normalised text"""
+    if isinstance(node, ast.BoolOp):
+        vals = [_bool_eval(v, env) for v in node.values]
+        return all(vals) if isinstance(node.op, ast.And) else any(vals)
+    if isinstance(node, ast.UnaryOp) and isinstance(node.op, ast.Not):
+        return not _bool_eval(node.operand, env)
+    return env[' '.join(unparse(node).split())]
+
+
+def _bool_atoms(node, out):
+    if isinstance(node, ast.BoolOp):
+        for v in node.values:
+            _bool_atoms(v, out)
+    elif isinstance(node, ast.UnaryOp) and isinstance(node.op, ast.Not):
+        _bool_atoms(node.operand, out)
+    else:
+        out.setdefault(' '.join(unparse(node).split()), node)
+    return out
+
+
+@rule('C16.o', min_instances=3)
+def the_type_of_the_input_is_kept_only_if_it_holds_the_values(ctx):
+    """bounded and impose_at keep the caller's dtype when they can (integers stay integers for whole bounds / targets) - but "whole" is not "storable": int8 cannot hold 300, uint8 cannot hold -5, bool cannot hold 5, an integer cannot hold 1e19 or nan, a float cannot hold 1+2j; numpy wraps, truncates or raises on such a store, and the entry does not land on the bound / the pinned value. The working array is therefore widened (astype) whenever `_holds(<array>.dtype, <the values to be stored>)` is false [bounded: and the array is of integer kind; always when not clipping - draws are fractional], and `_holds` itself is the round trip `(values.astype(dtype) == values).all()` - nothing weaker (a test for whole numbers, a test of the kind only)"""
+    import itertools
+    h = ctx.func(CN + ':_holds')
+    hp = [a.arg for a in h.node.args.args]
+    ctx.need(len(hp) == 2, '_holds: expected (dtype, values), found %s' % hp)
+    want = [T.term(ast.parse('(%s.astype(%s) == %s).all()' % (hp[1], hp[0], hp[1]), mode='eval').body), T.term(ast.parse('(%s == %s.astype(%s)).all()' % (hp[1], hp[1], hp[0]), mode='eval').body)]
+    rets = [r for r in ast.walk(h.node) if isinstance(r, ast.Return)]
+    ctx.need(rets, '_holds: no return statement')
+    bad = None
+    for r in rets:
+        v = r.value
+        if isinstance(v, ast.Call) and isinstance(v.func, ast.Name) and v.func.id == 'bool' and len(v.args) == 1:
+            v = v.args[0]
+        if v is None or T.term(v) not in want:
+            bad = r
+    ctx.check(bad is None, '_holds#round-trip', 'True exactly when values.astype(dtype) == values everywhere',
+              '_holds answers %s: a dtype is taken to hold values it cannot store (a whole number out of its range, a complex number, nan)' % (' '.join(unparse(bad.value).split())[:80] if bad is not None and bad.value is not None else 'None'),
+              h, bad or h.node)
+    n = 1
+    for anchor, valsrc, need_kind in ((CN + ':bounded', 'bounds', True), (CN + ':impose_at.dec.func', 'target', False)):
+        f = ctx.func(anchor)
+        params = set(f.args())
+        made = {}
+        for st in stmts_of(f.node):
+            if isinstance(st, ast.Assign) and len(st.targets) == 1 and isinstance(st.targets[0], ast.Name):
+                k = _array_of_param(st.value, params)
+                if k:
+                    made[st.targets[0].id] = (st, k)
+        ctx.need(made, '%s: the working array made from the input is not found' % f.qualname)
+        for A, (s0, kind) in sorted(made.items()):
+            if kind == 'float':
+                n += 1
+                ctx.ok('%s#%s' % (f.qualname, A), 'the working array is made as floats', f, s0)
+                continue
+            wid = [st for st in stmts_of(f.node) if isinstance(st, ast.Assign) and len(st.targets) == 1 and isinstance(st.targets[0], ast.Name) and st.targets[0].id == A
+                   and isinstance(st.value, ast.Call) and isinstance(st.value.func, ast.Attribute) and st.value.func.attr == 'astype' and unparse(st.value.func.value) == A]
+            ctx.need(wid, '%s: no widening of %s (astype) is found' % (f.qualname, A))
+            # local names -> what they are bound to (single assignment), to resolve the second argument of _holds
+            bound = {}
+            for st in stmts_of(f.node):
+                if isinstance(st, ast.Assign) and len(st.targets) == 1 and isinstance(st.targets[0], ast.Name):
+                    bound.setdefault(st.targets[0].id, []).append(st.value)
+            atoms = {}
+            for w in wid:
+                for test, truth, _ in guards_of(w, stop=f.node):
+                    _bool_atoms(test, atoms)
+            K = [k_ for k_ in atoms if k_.replace('"', "'") in ("%s.dtype.kind in 'iub'" % A, "%s.dtype.kind in 'iu'" % A, "%s.dtype.kind in 'biu'" % A)]
+            H = []
+            for k_, node in atoms.items():
+                if isinstance(node, ast.Call) and callee_text(node).split('.')[-1] == '_holds' and len(node.args) == 2 and ' '.join(unparse(node.args[0]).split()) == A + '.dtype':
+                    v = node.args[1]
+                    if isinstance(v, ast.Name) and len(bound.get(v.id, [])) == 1:
+                        v = bound[v.id][0]
+                    if valsrc in {x.id for x in ast.walk(v) if isinstance(x, ast.Name)}:
+                        H.append(k_)
+            C = [k_ for k_ in atoms if k_ == 'clip']
+            names = sorted(atoms)
+            miss = None
+            for vals in itertools.product((False, True), repeat=len(names)):
+                env = dict(zip(names, vals))
+                widened = any(all(_bool_eval(test, env) == truth for test, truth, _ in guards_of(w, stop=f.node)) for w in wid)
+                holds = all(env[k_] for k_ in H) if H else False
+                needs = not holds or (bool(C) and not all(env[k_] for k_ in C)) if need_kind else not holds
+                if need_kind and K:
+                    needs = needs and all(env[k_] for k_ in K)
+                if needs and not widened:
+                    miss = env
+                    break
+            n += 1
+            ctx.check(miss is None, '%s#%s' % (f.qualname, A), 'widened unless _holds(%s.dtype, <%s>)%s' % (A, valsrc, ' (integer kinds; always when not clipping)' if need_kind else ''),
+                      '%s keeps the dtype of the caller\'s vector although it is not established that it stores the %s unchanged (%s): a bound / target outside the range of a short, unsigned or boolean type wraps or is truncated, nan / 1e19 / a complex target cannot be stored at all'
+                      % (f.qualname, 'bounds' if need_kind else 'target', ', '.join('%s=%s' % (k_, v_) for k_, v_ in sorted((miss or {}).items()))[:120]), f, wid[0])
+    ctx.need(n >= 3, 'expected the helper and the widenings of bounded and impose_at, found %d' % n)
